@@ -46,6 +46,9 @@ func round4(c *Ctx) {
 		r4ScaledCounts(c)
 	case "C19":
 		r4NonASCIIMarkedKeys(c)
+		// a key that one of two same-named struct types lacks and the other has: asked of the one that lacks it first, and the other way round
+		r4LocalTypes(c, []string{"$.one.pad?.IsNull()", "$.two.pad?.IsNull()", "$.two.pad?.IsNotNull()", "$.two.a?.IsNull()", "$.one.a?.IsNull()", "$.one.a?.IsNotNull()", "$.one.pad", "$.two.pad", "$.two.a", "$.one.a",
+			"$.mix.pad", "$.mix.a", "$.mix[@.pad?.IsNull()].Count()", "$.mix[@.a?.IsNotNull()].Count()"})
 	case "C02", "C03":
 		r4RootGroupsAcrossDocuments(c)
 	}
@@ -84,6 +87,10 @@ func r4TaggedStructs(c *Ctx) {
 			{"Lines", flag, tvSlice(1, line("a", 1, 1.5), line("b", 2, 2.25))}, {"Ptr", flag, tvPtr(tvInt("uint64", "18446744073709551615"))}, {"Dec", flag, tvDec(decimal.RequireFromString("12.50"))}})
 		for _, q := range []string{"$.id", "$.Id", "$.net", "$.tax.Add(1)", "$.name", "$.count", "$.lines.First().qty", "$.lines.Last().price", "$.lines.qty", "$.lines.price.Sum()", "$.lines.sku", "$.ptr", "$.dec",
 			"$.Sum()", "$.Maximum()", `$.Select("$").Count()`, "$.lines[@.qty.Greater(1)].sku", `$.lines.Select("$.sku").Count()`, "$.zz_id", "$.zz_net", "$.IsEmpty()", `$.RemoveKeysByPrefix("N")`, "$.lines.First().Sum()"} {
+			if c.Prop == "C10" && !strings.Contains(q, "RemoveKeysBy") { // the struct with tags answers like the map that holds the same
+				c.sameAcross(q, []string{"map", "tagged-struct", "pointer-to-tagged-struct"}, []*TV{structAsMap(d), d, tvPtr(d)}, fmt.Sprintf("round4/tagged-struct/flag%d", flag))
+				continue
+			}
 			c.Do(Case{Q: q, D: d, Cls: fmt.Sprintf("round4/tagged-struct/flag%d", flag), InDomain: true})
 			c.Do(Case{Q: q, D: tvPtr(d), Cls: fmt.Sprintf("round4/tagged-struct/flag%d/ptr", flag), InDomain: true})
 		}
@@ -140,17 +147,66 @@ func r4Cyclic(c *Ctx) {
 	}
 }
 
+// sameAcross: the query on several renderings of one document: the same logical answer on each (C10)
+func (c *Ctx) sameAcross(q string, names []string, ds []*TV, cls string) {
+	var first string
+	for i, d := range ds {
+		o := c.Do(Case{Q: q, D: d, Cls: cls + "/" + names[i], InDomain: true})
+		got := o.Class
+		if o.Class == "ok" {
+			got = o.Logical
+		}
+		if i == 0 {
+			first = got
+			continue
+		}
+		if got != first {
+			c.addViolation(Violation{Kind: "carrier-dependence", Query: q, QueryHex: hx(q), Data: d, Expected: trunc(first, 300), Got: trunc(got, 300), Cls: cls,
+				Why: "the same document in the carrier " + names[i] + " gives another answer than in the carrier " + names[0], Key: "carrier:" + cls + ":" + lastFunc(q)})
+		}
+	}
+}
+
+// structAsMap: the map[string]any that holds what the struct holds (fields become keys, recursively)
+func structAsMap(t *TV) *TV {
+	switch t.T {
+	case "struct":
+		var kvs [][2]any
+		for _, f := range t.V.([][3]any) {
+			kvs = append(kvs, [2]any{hx(f[0].(string)), structAsMap(f[2].(*TV))})
+		}
+		return tvMap("str", kvs)
+	case "slice":
+		xs := []*TV{}
+		for _, x := range t.V.([]*TV) {
+			xs = append(xs, structAsMap(x))
+		}
+		return &TV{T: "slice", EI: t.EI, Nil: t.Nil, V: xs}
+	case "ptr":
+		if t.Nil == 0 {
+			return structAsMap(t.V.(*TV))
+		}
+	}
+	return t
+}
+
 // C10: a key that equals a key of the document only under FULL case folding (one letter for two) is another key, in every carrier
 func r4FullFolding(c *Ctx) {
-	doc := dObj("adresse", dObj("straße", dStr("Hauptstr. 1"), "masse", dNum("3"), "profil", dStr("p"), "ǆ", dNum("1")), "liste", dArr(dObj("straße", dStr("a")), dObj("straße", dStr("b"))), "ſ", dNum("2"), "k", dNum("5"))
+	doc := dObj("adresse", dObj("straße", dStr("Hauptstr. 1"), "masse", dNum("3"), "profil", dStr("p"), "ǆ", dNum("1")), "liste", dArr(dObj("straße", dStr("a")), dObj("straße", dStr("b"))), "ſ", dNum("2"), "k", dNum("5"),
+		// names a Go struct can have as field names (ASCII), asked for in spellings that fold to them only one-to-two
+		"plain", dObj("masse", dNum("3"), "profil", dStr("p"), "strasse", dStr("s"), "fluss", dNum("1")), "rows", dArr(dObj("strasse", dStr("a"), "n", dNum("1")), dObj("strasse", dStr("b"), "n", dNum("2"))))
 	qs := []string{"$.adresse.strasse", "$.adresse.STRASSE", "$.adresse.STRAßE", "$.adresse.straße", "$.adresse.maße", "$.adresse.MASSE", "$.adresse.proﬁl", "$.adresse.PROFIL", "$.liste.strasse", "$.liste.STRAßE",
-		"$.liste[@.strasse.Equal(\"a\")].Count()", `$.liste.Select("$.strasse")`, "$.adresse.ǅ", "$.adresse.Ǆ", "$.s", "$.S", "$.ſ", "$.K", "$.K.Add(1)", "$.K"}
-	for _, st := range []Style{{Obj: "map", Num: "f64"}, {Obj: "struct", Num: "f64"}, {Obj: "struct", Num: "int", PtrObj: true}, {Obj: "nmap", Num: "dec"}, {Obj: "imap", Num: "f64"}, {Obj: "inmap", Num: "f64"}} {
-		st := st
-		d := render(doc, &st)
-		for _, q := range qs {
-			c.Do(Case{Q: q, D: d, Cls: "round4/full-folding-keys/" + st.Obj, InDomain: true})
-		}
+		"$.liste[@.strasse.Equal(\"a\")].Count()", `$.liste.Select("$.strasse")`, "$.adresse.ǅ", "$.adresse.Ǆ", "$.s", "$.S", "$.ſ", "$.K", "$.K.Add(1)", "$.K",
+		"$.plain.ma\u00dfe", "$.plain.MASSE", "$.plain.pro\ufb01l", "$.plain.stra\u00dfe", "$.plain.STRA\u00dfE", "$.plain.\ufb02uss", "$.plain.flu\u00df", "$.rows.stra\u00dfe", "$.rows[@.stra\u00dfe.Equal(\"a\")].Count()", "$.rows.Select(\"$.stra\u00dfe\")", "$.plain.Strasse"}
+	styles := []Style{{Obj: "map", Num: "f64"}, {Obj: "struct", Num: "f64"}, {Obj: "struct", Num: "int", PtrObj: true}, {Obj: "nmap", Num: "dec"}, {Obj: "imap", Num: "f64"}, {Obj: "inmap", Num: "f64"}}
+	var names []string
+	var ds []*TV
+	for i := range styles {
+		names = append(names, fmt.Sprintf("%s-%s", styles[i].Obj, styles[i].Num))
+		ds = append(ds, render(doc, &styles[i]))
+	}
+	for _, q := range qs {
+		c.sameAcross(q, names, ds, "round4/full-folding-keys")
 	}
 }
 
